@@ -240,7 +240,7 @@ def generate(unit, repo, vacuity_fn=None):
     """Build the Verus file text for `unit` from the working tree under `repo`.
     vacuity_fn: qualified fn name that gets `assert(false);` at body start (vacuity probe)."""
     g = Generated()
-    stats = {k: 0 for k in ('D1', 'D2', 'A1', 'A2', 'A3', 'A4', 'R1', 'R2', 'R3', 'R4', 'R5', 'R6', 'X1')}
+    stats = {k: 0 for k in ('D1', 'D2', 'A1', 'A2', 'A3', 'A4', 'R1', 'R2', 'R3', 'R4', 'R5', 'R6', 'R7', 'R8', 'X1')}
     sources = {}
 
     def src_of(rel):
